@@ -29,13 +29,13 @@ func (c10) Meta() fw.Meta {
 		ID: "C10",
 		Rule: "case = a tree of 2-4 item directories (one nested) with 1-12 files of one layout each; values are integers / dyadic fractions (addition exact in any order) with arbitrary NaN holes incl. slots where every file is NaN, exactly one file (first, middle or last in glob order) has a value, and the FIRST file has the hole. " +
 			"drivers: (a) cmd.sumWhisperFile through the verif export hook at a virtual clock for ~12 (archive selection, window) combinations incl. retention edges; (b) the real sum binary at wall clock with clean and unclean spellings of the base directory (trailing /, /., //), -archive all/one, windows, item patterns matching one/all/none. " +
-			"oracle: per archive the series has the C04 shape of that archive and at every slot the sum of the files' fetched values that are not NaN (NaN iff none); a single file sums bit-exactly to its own fetch; a file with another layout => error; item or file pattern matching nothing => an error with os.IsNotExist (function) / exit 2 (CLI). " +
+			"oracle: per archive the series has the C04 shape of that archive and at every slot the sum of the files' fetched values that are not NaN (NaN iff none); a single file sums bit-exactly to its own fetch; a file with another layout => error for every window and archive selection (also narrow windows in which all files yield the same shape); file patterns with a directory component sum exactly the matched files; item or file pattern matching nothing => an error with os.IsNotExist (function) / exit 2 (CLI). " +
 			"non-trivial = item with >= 3 files in which some slot had exactly one contributor and some slot none; distinct by tree + clock.",
 		Assumptions: []string{
 			"values are chosen so that floating-point addition is exact: the property is about WHICH values are added, not about association order",
 			"directory names contain no dots (items are dotted paths)",
 		},
-		Obligations: []string{"function_sums", "cli_sums", "slots_summed", "slot_all_nan", "slot_single_contributor", "first_file_hole", "single_file_item", "layout_mismatch_rejected", "no_match_item", "no_match_file", "unclean_base_spelling", "single_archive_selection", "edge_window"},
+		Obligations: []string{"function_sums", "cli_sums", "slots_summed", "slot_all_nan", "slot_single_contributor", "first_file_hole", "single_file_item", "layout_mismatch_rejected", "no_match_item", "no_match_file", "unclean_base_spelling", "single_archive_selection", "edge_window", "file_pattern_with_directory"},
 		Workers:     12,
 	}
 }
@@ -290,12 +290,51 @@ func (c10) Run(c *fw.Ctx) {
 		other.Archs[len(other.Archs)-1].Points += 1 + uint32(r.Intn(3))
 		bad := filepath.Join(vt.Base, "grpA", "zzz-other.wsp")
 		writeFixture(bad, other, genContent(r, other, vnow, 0.5), vnow)
-		if _, _, err := wcmd.VerifSumWhisperFile(vt.Base, "grpA", "*.wsp", -1, 0, u32(vnow), u32(vnow)); err == nil {
-			c.Violationf("layout-mismatch-accepted", fw.J{"layout": l, "other": other}, "sum over files with differing layouts succeeded")
-		} else {
-			c.Count("layout_mismatch_rejected", 1)
+		// default window, a narrow recent window (same fetched shape in every file) and single-archive selections
+		a0 := l.Archs[0]
+		for _, q := range []struct {
+			sel         int
+			from, until int64
+		}{{-1, 0, vnow}, {-1, vnow - minI64(a0.Ret()/2, 3*int64(a0.Step)+1), vnow}, {0, vnow - minI64(a0.Ret()/2, 3*int64(a0.Step)+1), vnow}, {0, 0, vnow}} {
+			if _, _, err := wcmd.VerifSumWhisperFile(vt.Base, "grpA", "*.wsp", q.sel, u32(q.from), u32(q.until), u32(vnow)); err == nil {
+				c.Violationf("layout-mismatch-accepted", fw.J{"layout": l, "other": other, "archive": q.sel, "from": q.from, "until": q.until, "now": vnow},
+					"sum over files with differing layouts succeeded (archive %d, window [%d,%d])", q.sel, q.from, q.until)
+			} else {
+				c.Count("layout_mismatch_rejected", 1)
+			}
 		}
 		os.Remove(bad)
+	}
+	// a file pattern with a directory component: item grpD holds sub-directories s1..s3 with one file each
+	{
+		sub := sumTree{Base: vt.Base, L: l, Items: map[string][]string{"grpD": nil}, Now: vnow}
+		for i := 1; i <= 3; i++ {
+			rel := filepath.Join(fmt.Sprintf("s%d", i), "v.wsp")
+			writeFixture(filepath.Join(vt.Base, "grpD", rel), l, genContent(r, l, vnow, 0.6), vnow)
+			sub.Items["grpD"] = append(sub.Items["grpD"], rel)
+		}
+		for _, pat := range []string{"*/v.wsp", "s[12]/v.wsp", "s1/*.wsp"} {
+			matched, _ := filepath.Glob(filepath.Join(vt.Base, "grpD", pat))
+			sel := sumTree{Base: vt.Base, L: l, Items: map[string][]string{"grpD": nil}, Now: vnow}
+			for _, m := range matched {
+				rel, _ := filepath.Rel(filepath.Join(vt.Base, "grpD"), m)
+				sel.Items["grpD"] = append(sel.Items["grpD"], rel)
+			}
+			want, _ := expectedSum(sel, "grpD", -1, 0, vnow, vnow, c)
+			_, got, err := wcmd.VerifSumWhisperFile(vt.Base, "grpD", pat, -1, 0, u32(vnow), u32(vnow))
+			det := fw.J{"item": "grpD", "pattern": pat, "matched": sel.Items["grpD"], "now": vnow}
+			if err != nil {
+				c.Violationf("sum-error", det, "sum with the file pattern %q (matching %d files) failed: %v", pat, len(matched), err)
+				break
+			}
+			for ai := range l.Archs {
+				if msg := seriesEqual(got[ai], want[ai]); msg != "" {
+					c.Violationf("sum-differs", det, "file pattern %q: archive %d differs from the sum of the matched files: %s", pat, ai, msg)
+					break
+				}
+			}
+			c.Count("file_pattern_with_directory", 1)
+		}
 	}
 	if c.Violated() {
 		return
@@ -422,10 +461,11 @@ func (c10) Run(c *fw.Ctx) {
 			}
 		}
 	}
-	// patterns matching nothing through the CLI
+	// patterns matching nothing (or nothing that is an item directory) through the CLI
 	for _, a := range [][]string{
 		{"sum", "-src-base", wtBase, "-item", "zz*", "-src", "*.wsp"},
 		{"sum", "-src-base", wtBase, "-item", "grpA", "-src", "zz*.wsp"},
+		{"sum", "-src-base", wtBase, "-item", "grpA/*", "-src", "*.wsp"}, // one level too deep: matches the files themselves
 	} {
 		rr := runCLI(c, a...)
 		if rr.Exit == 0 || cliPanicked(rr) {
